@@ -4,6 +4,7 @@ import SC.Model.AsmShape
 import SC.Gen.AsmFacts
 import SC.Proofs.AsmSmall
 import SC.Proofs.AsmLoop
+import SC.Proofs.AsmCountLoop
 /-!
 # C13 — SIMD byte kernels equal their scalar definition at every length and alignment
 
@@ -183,6 +184,26 @@ theorem instruction_level_sse_search (mem : Mem) (base len : Nat) (c : UInt8) (s
   ⟨Asm.sse_indexbytebody_correct mem base len c s f h16 hb hSI hDI hBX hX0 hX2 hmem hout hl (by omega),
    Asm.sse_indexbytebodyCase_correct mem base len c s f h16 hb hSI hDI hBX hX0 hX2 hmem hout hl (by omega),
    Asm.sse_indexByteBodyNonASCII_correct mem base len c s f h16 hb hSI hDI hBX (fun _ => trivial) hX2 hmem hout hl (by omega)⟩
+
+/-- **the SSE counting loops, instruction by instruction** (labels `sse … end` of `countbody` and `countbodyCase`): block
+    loop with the accumulator in `R12`, then the overlapping last block masked to its top `len mod 16` lanes
+    (`ANDQ $15` / `MOVQ $0xFFFF; SARQ; SALQ` / `ANDQ; POPCNTL`).  The stored count is the scalar count and every load lies
+    inside the argument, for every memory, base, length ≥ 16 and needle byte. -/
+theorem instruction_level_sse_count (mem : Mem) (base len : Nat) (c : UInt8) (s : Asm.St) (f : Nat)
+    (h16 : 16 ≤ len) (hb : base + len + 32 < 2 ^ 62)
+    (hSI : s.r .SI = base) (hDI : s.r .DI = base) (hBX : s.r .BX = len) (hR12 : s.r .R12 = 0)
+    (hX0 : ∀ j, s.x .X0 j = c) (hX2 : ∀ j, s.x .X2 j = 0x20)
+    (hmem : s.mem = mem) (hout : s.out = none) (hl : s.loads = []) (hf : 9 * (len + 1) + 24 ≤ f) :
+    ((Asm.run Gen.Asm.ssecnt_countbody f (Asm.block Gen.Asm.ssecnt_countbody "sse") s).out =
+        some ((specCount (fun b => b == c) mem base len : Nat) : Int) ∧
+      ∀ ld ∈ (Asm.run Gen.Asm.ssecnt_countbody f (Asm.block Gen.Asm.ssecnt_countbody "sse") s).loads,
+        base ≤ ld.1 ∧ ld.1 + ld.2 ≤ base + len) ∧
+    ((Asm.run Gen.Asm.ssecnt_countbodyCase f (Asm.block Gen.Asm.ssecnt_countbodyCase "sse") s).out =
+        some ((specCount (fun b => (b ||| 0x20) == c) mem base len : Nat) : Int) ∧
+      ∀ ld ∈ (Asm.run Gen.Asm.ssecnt_countbodyCase f (Asm.block Gen.Asm.ssecnt_countbodyCase "sse") s).loads,
+        base ≤ ld.1 ∧ ld.1 + ld.2 ≤ base + len) :=
+  ⟨Asm.ssecnt_countbody_correct mem base len c s f h16 hb hSI hDI hBX hR12 hX0 hX2 hmem hout hl hf,
+   Asm.ssecnt_countbodyCase_correct mem base len c s f h16 hb hSI hDI hBX hR12 hX0 hX2 hmem hout hl hf⟩
 
 /-- the `len < 16` counting paths of `countbody` and `countbodyCase`, instruction by instruction: the count stored through
     `R8` is the scalar count, and the single load cannot fault -/
